@@ -21,6 +21,10 @@
 //!   canned <hexfn> <status> <body> <arg>-> result of run_client on a canned response ## ok|fail status-rule
 //!   rawreq <hexfn> <METHOD> <query|none> <body> -> <status> <body>                ## ok|fail server-response
 //!   stream text|bytes <chunk,chunk,..|none>  -> items seen by the caller          ## ok|fail text-stream
+//!   streamout text <item,item,..|none>   item = o<text> | e<Variant>:<msg>    a function with output = StreamingText
+//!   streamout bytes <item,item,..|none>  item = o<bytes> | x<raw error bytes>  a function with output = Streaming
+//!                                       -> items seen by the remote caller (every item the code relays)
+//!                                          ## ok|fail stream-out (same text and same first error as the direct caller)
 //!  (c) corruption (testing)
 //!   corrupth <hexfn> req|res <mut> <arg>-> result                                 ## ok|fail panic
 //!   corrupt <typedfn> req|res <mut> echo|fail.. (as tcall) -> done               ## ok|fail panic
@@ -785,6 +789,86 @@ server_fn::inventory::submit! {{
     ServerFnTraitObj::new::<BytesEcho>(|req| Box::pin(BytesEcho::run_on_server(req)))
 }}
 
+/// one item of an output stream: `k = 0` is `Ok(b)`; for text `k = 1 + i` is `Err(i-th variant(b as text))`,
+/// for bytes any other `k` is `Err(b)` (raw serialized error)
+#[derive(Clone, Debug, PartialEq, serde::Serialize, serde::Deserialize)]
+pub struct OutItem {
+    pub k: u8,
+    pub b: Vec<u8>,
+}
+
+fn text_item(i: OutItem) -> Result<String, ServerFnError> {
+    let text = String::from_utf8(i.b).unwrap_or_default();
+    if i.k == 0 {
+        Ok(text)
+    } else {
+        Err(mk_n(VARIANTS[(i.k as usize - 1) % VARIANTS.len()], text).unwrap())
+    }
+}
+
+/// a streamed *response*: `IntoRes<StreamingText>` on the server, `FromRes<StreamingText>` in the client
+#[server(name = TextOut, prefix = "/api", endpoint = "text_out", input = Json, output = StreamingText, client = LoopClient, server = LoopServer)]
+pub async fn text_out(items: Vec<OutItem>) -> Result<TextStream, ServerFnError> {
+    Ok(TextStream::new(futures::stream::iter(items.into_iter().map(text_item))))
+}
+
+#[server(name = BytesOut, prefix = "/api", endpoint = "bytes_out", input = Json, output = Streaming, client = LoopClient, server = LoopServer)]
+pub async fn bytes_out(items: Vec<OutItem>) -> Result<ByteStream, ServerFnError> {
+    Ok(ByteStream::new(futures::stream::iter(items.into_iter().map(|i| {
+        if i.k == 0 {
+            Ok::<Bytes, Bytes>(Bytes::from(i.b))
+        } else {
+            Err(Bytes::from(i.b))
+        }
+    }))))
+}
+
+fn items_bytes(s: ByteStream) -> Vec<Result<Vec<u8>, Vec<u8>>> {
+    block_on(s.into_inner().collect::<Vec<_>>())
+        .into_iter()
+        .map(|i| i.map(|b| b.to_vec()).map_err(|b| b.to_vec()))
+        .collect()
+}
+
+/// the text (bytes) before the first error and that error: what survives any re-chunking
+fn prefix_key<E: Clone>(items: &[Result<Vec<u8>, E>]) -> (Vec<u8>, Option<E>) {
+    let mut t = vec![];
+    for i in items {
+        match i {
+            Ok(b) => t.extend_from_slice(b),
+            Err(e) => return (t, Some(e.clone())),
+        }
+    }
+    (t, None)
+}
+
+fn parse_out_items(kind: &str, s: &str) -> Option<Vec<OutItem>> {
+    if s == "none" {
+        return Some(vec![]);
+    }
+    s.split(',')
+        .map(|w| {
+            let (tag, rest) = w.split_at(w.char_indices().nth(1)?.0);
+            match (kind, tag) {
+                (_, "o") => {
+                    let b = unhex(rest)?;
+                    if kind == "text" {
+                        String::from_utf8(b.clone()).ok()?;
+                    }
+                    Some(OutItem { k: 0, b })
+                }
+                ("text", "e") => {
+                    let (v, m) = rest.split_once(':')?;
+                    let k = VARIANTS.iter().position(|x| *x == v)?;
+                    Some(OutItem { k: 1 + k as u8, b: unhex_str(m)?.into_bytes() })
+                }
+                ("bytes", "x") => Some(OutItem { k: 1, b: unhex(rest)? }),
+                _ => None,
+            }
+        })
+        .collect()
+}
+
 fn items_text(s: TextStream) -> Vec<Result<Vec<u8>, String>> {
     block_on(s.into_inner().collect::<Vec<_>>())
         .into_iter()
@@ -1199,6 +1283,60 @@ fn op(line: &str) -> String {
                 None => "done ## fail panic".into(),
             }
         }
+        ["streamout", kind, it] => {
+            let Some(items) = parse_out_items(kind, it) else { return "bad-op".into() };
+            match *kind {
+                "text" => {
+                    let i2 = items.clone();
+                    let Some(remote) = guard(move || block_on(TextOut { items: i2 }.run_on_client()).map(items_text))
+                    else {
+                        return "panic ## fail panic".into();
+                    };
+                    let direct = block_on(text_out(items)).map(items_text);
+                    match (remote, direct) {
+                        (Ok(r), Ok(d)) => {
+                            let good = prefix_key(&r) == prefix_key(&d);
+                            format!("{} ## {}", show_items(&r), if good { "ok" } else { "fail stream-out" })
+                        }
+                        (Err(e), _) => format!("err {} ## fail stream-out", show_err(&e)),
+                        (_, Err(e)) => format!("direct-err {} ## fail stream-out", show_err(&e)),
+                    }
+                }
+                "bytes" => {
+                    let i2 = items.clone();
+                    let Some(remote) = guard(move || block_on(BytesOut { items: i2 }.run_on_client()).map(items_bytes))
+                    else {
+                        return "panic ## fail panic".into();
+                    };
+                    let direct = block_on(bytes_out(items)).map(items_bytes);
+                    match (remote, direct) {
+                        (Ok(r), Ok(d)) => {
+                            // an error chunk is a serialized error: compare what it decodes to
+                            let key = |v: &[Result<Vec<u8>, Vec<u8>>]| {
+                                let (t, e) = prefix_key(v);
+                                (t, e.map(|b| ServerFnError::<NoCustomError>::de(Bytes::from(b))))
+                            };
+                            let good = key(&r) == key(&d);
+                            let shown: Vec<String> = r
+                                .iter()
+                                .map(|i| match i {
+                                    Ok(b) => format!("o{}", hex(b)),
+                                    Err(b) => format!("x{}", hex(b)),
+                                })
+                                .collect();
+                            format!(
+                                "{} ## {}",
+                                if shown.is_empty() { "-".to_string() } else { shown.join(",") },
+                                if good { "ok" } else { "fail stream-out" }
+                            )
+                        }
+                        (Err(e), _) => format!("err {} ## fail stream-out", show_err(&e)),
+                        (_, Err(e)) => format!("direct-err {} ## fail stream-out", show_err(&e)),
+                    }
+                }
+                _ => "bad-op".into(),
+            }
+        }
         ["stream", kind, ch] => {
             let chunks: Option<Vec<Vec<u8>>> =
                 if *ch == "none" { Some(vec![]) } else { ch.split(',').map(unhex).collect() };
@@ -1509,7 +1647,7 @@ fn gen(seed: u64, n: usize, path: &str) -> std::io::Result<()> {
     const HEXFNS: &[&str] = &["hx_post", "hx_patch", "hx_put"];
     for i in 0..n {
         let ty = if r.chance(1, 3) { "c" } else { "n" };
-        match r.below(20) {
+        match r.below(22) {
             0 | 1 | 2 => {
                 writeln!(f, "case {i}-errfmt")?;
                 writeln!(f, "ser {ty} {} {}", gen_variant(&mut r), hex(gen_text(&mut r, 8, ty == "c").as_bytes()))?
@@ -1610,6 +1748,37 @@ fn gen(seed: u64, n: usize, path: &str) -> std::io::Result<()> {
                 let side = *r.pick(&["req", "res"]);
                 let m = gen_mut(&mut r);
                 writeln!(f, "corrupt {fname} {side} {m} {}", gen_tcall(&mut r, fname).split_once(' ').unwrap().1)?
+            }
+            19 | 20 => {
+                // output streams whose item sequence contains errors at every position
+                writeln!(f, "case {i}-streamout")?;
+                let kind = if r.chance(1, 3) { "bytes" } else { "text" };
+                let n = r.below(6);
+                let items: Vec<String> = (0..n)
+                    .map(|_| {
+                        let is_err = r.chance(2, 5);
+                        match (kind, is_err) {
+                            ("text", false) => format!("o{}", hex(gen_text(&mut r, 5, false).as_bytes())),
+                            ("text", true) => {
+                                format!("e{}:{}", gen_variant(&mut r), hex(gen_text(&mut r, 5, false).as_bytes()))
+                            }
+                            (_, false) => format!("o{}", hex(&gen_hex_arg(&mut r))),
+                            _ => {
+                                let raw = if r.chance(2, 3) {
+                                    format!("{}|{}", r.pick(PREFIXES), gen_text(&mut r, 5, true)).into_bytes()
+                                } else {
+                                    gen_err_bytes(&mut r)
+                                };
+                                format!("x{}", hex(&raw))
+                            }
+                        }
+                    })
+                    .collect();
+                if items.is_empty() {
+                    writeln!(f, "streamout {kind} none")?
+                } else {
+                    writeln!(f, "streamout {kind} {}", items.join(","))?
+                }
             }
             _ => {
                 writeln!(f, "case {i}-stream")?;
